@@ -1,3 +1,4 @@
+import F3.Proofs.InstanceGen2
 import F3.Proofs.InstanceRun
 import F3.Props.C07
 import F3.Proofs.SyncGeneralNet
@@ -543,4 +544,95 @@ example :
 
 end GeneralInputs
 
+end F3.Props.C06
+
+/-! # Regenerated, second set (appended): ties to `tools/go2lean/targets.d/*2.json` -/
+namespace F3.Props.C06
+section Regenerated2
+/-! ## Regenerated (2): timers, rebroadcast, round skipping and the PREPARE / COMMIT exits of `gpbft/gpbft.go`
+
+Termination rests on *when* the instance model moves on, rebroadcasts and re-arms its alarm. Those
+decisions are re-stated by hand in `F3/Model/Instance.lean`; the theorems below (proved in
+`F3/Proofs/InstanceGen2.lean`, namespace `F3.Gen2Tie`) equate each of them with the definition
+`tools/go2lean` regenerates from the Go source on every run (`targets.d/Gpbft2.json` →
+`F3/Gen/Gpbft2.lean`), so that an edit of the Go site either keeps the equality or breaks this file. -/
+open F3.Instance
+
+/-- `phaseTimeoutElapsed` = `atOrAfter(now, phaseTimeout)` (`After || Equal`) -/
+theorem phase_timeout_is_regenerated (s : State) (now : Int) :
+    s.phaseTimeoutElapsed now =
+      F3.Gen.Gpbft2.atOrAfter (decide (now > s.phaseTimeout)) (decide (now = s.phaseTimeout)) :=
+  F3.Gen2Tie.phaseTimeoutElapsed_is_atOrAfter s now
+
+/-- `shouldRebroadcast` of the model = of the source -/
+theorem should_rebroadcast_is_regenerated (s : State) (now : Int) :
+    s.shouldRebroadcast now =
+      F3.Gen.Gpbft2.shouldRebroadcast s.round s.cfg.rebImmediateAfter (s.phaseTimeoutElapsed now) :=
+  F3.Gen2Tie.shouldRebroadcast_is_regenerated s now
+
+/-- no skip to a round that is not ahead, none in DECIDE: the first guard of `shouldSkipToRound` -/
+theorem skip_refused_is_regenerated (s : State) (now : Int) (round : Nat)
+    (h : F3.Gen.Gpbft2.skipToRoundRefused s.phase.toNat s.round round = true) :
+    s.postReceive now round = (s, []) :=
+  F3.Gen2Tie.postReceive_refused s now round h
+
+/-- the guard itself, as an equation -/
+theorem skip_guard_is_regenerated (s : State) (round : Nat) :
+    (decide (round ≤ s.round) || s.phase == .decide) =
+      F3.Gen.Gpbft2.skipToRoundRefused s.phase.toNat s.round round :=
+  F3.Gen2Tie.skip_guard_is_regenerated s round
+
+/-- first rebroadcast: the offset of the alarm (statement: `F3.Gen2Tie.first_rebroadcast_offset_is_regenerated`) -/
+theorem first_rebroadcast_is_regenerated :
+    type_of% @F3.Gen2Tie.first_rebroadcast_offset_is_regenerated :=
+  @F3.Gen2Tie.first_rebroadcast_offset_is_regenerated
+
+/-- successive rebroadcasts: rebroadcast, count, next timeout, alarm choice, in the source's order
+(statement: `F3.Gen2Tie.next_rebroadcast_is_regenerated`) -/
+theorem next_rebroadcast_is_regenerated : type_of% @F3.Gen2Tie.next_rebroadcast_is_regenerated :=
+  @F3.Gen2Tie.next_rebroadcast_is_regenerated
+
+/-- what is rebroadcast and in which order = `rebroadcast()` of the source -/
+theorem rebroadcast_plan_is_regenerated (s : State) :
+    rebroadcastEffs s = F3.Gen2Tie.rebPlan s (F3.Gen.Gpbft2.rebroadcast s.phase.toNat s.round) :=
+  F3.Gen2Tie.rebroadcast_plan_is_regenerated s
+
+/-- a COMMIT re-tries the current phase exactly under `tryToCompleteCurrentPhase` of the source -/
+theorem commit_retry_is_regenerated (st : State) (m : Msg) :
+    (st.phase == .prepare && st.round == m.round && !m.value.isEmpty) =
+      F3.Gen.Gpbft2.commitRetriesCurrentPhase false st.phase.toNat st.round m.round m.value.isEmpty :=
+  F3.Gen2Tie.commit_retry_is_regenerated st m
+
+/-- the round assertion of `beginConverge` (domain: past round 0, `uint64` rounds) -/
+theorem converge_round_guard_is_regenerated (s : State) (now : Int) (j : Just)
+    (h1 : 1 ≤ s.round) (h2 : s.round < 2 ^ 64) (h3 : j.round < 2 ^ 64) :
+    F3.Gen.Gpbft2.convergeJustWrongRound s.round j.round = (j.round + 1 != s.round) ∧
+    (F3.Gen.Gpbft2.convergeJustWrongRound s.round j.round = true →
+      s.beginConverge now j = (s, [.panic .convergeJustRound])) :=
+  F3.Gen2Tie.converge_round_guard_is_regenerated s now j h1 h2 h3
+
+/-- the end of PREPARE = the two `if` chains of `tryPrepare` -/
+theorem try_prepare_is_regenerated (s : State) (now : Int) (hp : s.phase = .prepare) :
+    s.tryPrepare now =
+      (F3.Gen.Gpbft2.tryPrepare s.prepFoundJust s.prepFoundQuorum (s.prepComplete now) s.prepNotPossible
+        (s.shouldRebroadcast now)).2.foldl (F3.Gen2Tie.prepAct now) (s, []) :=
+  F3.Gen2Tie.tryPrepare_is_regenerated s now hp
+
+/-- the `switch` of `tryCommit` (statement: `F3.Gen2Tie.tryCommit_is_regenerated`) -/
+theorem try_commit_is_regenerated : type_of% @F3.Gen2Tie.tryCommit_is_regenerated :=
+  @F3.Gen2Tie.tryCommit_is_regenerated
+
+-- non-vacuity: the regenerated decisions take every branch
+example : (F3.Gen.Gpbft2.tryCommit false true 4 3 false false 3 false).2 = [1, 2] ∧
+    (F3.Gen.Gpbft2.tryCommit false true 4 3 false true 3 false).2 = [3] ∧
+    (F3.Gen.Gpbft2.tryCommit false false 4 3 true true 3 false).2 = [4, 3] ∧
+    (F3.Gen.Gpbft2.tryCommit false false 4 3 false true 3 true).2 = [5] ∧
+    (F3.Gen.Gpbft2.tryCommit true false 3 3 true true 3 true).2 = [] := by decide
+example : (F3.Gen.Gpbft2.tryPrepare false true false false false).2 = [1, 3] ∧
+    (F3.Gen.Gpbft2.tryPrepare false false true false false).2 = [2, 3] ∧
+    (F3.Gen.Gpbft2.tryPrepare false false false false true).2 = [4] := by decide
+example : F3.Gen.Gpbft2.rebroadcast 3 2 = [1, 14, 13, 12, 24, 23, 22] ∧ F3.Gen.Gpbft2.rebroadcast 3 0 = [1, 14, 13, 12] ∧
+    F3.Gen.Gpbft2.rebroadcast 5 7 = [5] ∧ F3.Gen.Gpbft2.rebroadcast 6 7 = [] := by decide
+
+end Regenerated2
 end F3.Props.C06
